@@ -467,11 +467,71 @@ def check_package(case, ctx: Ctx):
 
 
 # ------------------------------------------------------------------------------------------------------------
+# ------------------------------------------------------------------------------------------------------------
+# sub `implied`: the manifest implied by a directory listing (Manifest.fromDirectory - what tells a folder reference
+# from a component reference when a package / instance DIRECTORY is loaded)
+ENTRY_NAMES = ["data", "bin", "conf", "hooks", "lib", "Lib", "shared", "ref-data", "a.b", ".hidden", "stage0", "input",
+               "x y", "0", "A"]
+
+
+@st.composite
+def implied_case(draw):
+    names = draw(st.lists(st.sampled_from(ENTRY_NAMES), min_size=1, max_size=6, unique=True))
+    kinds = ["dir", "dir", "file", "link-to-dir", "link-to-dir", "link-to-file", "dangling-link", "link-to-link-to-dir"]
+    return {"entries": [[n, draw(st.sampled_from(kinds))] for n in names],
+            "include_files": draw(st.booleans()), "resolve_paths": draw(st.booleans())}
+
+
+def check_implied(case, ctx: Ctx):
+    import shutil
+    from experiment.model.frontends.flowir import Manifest
+    root = ctx.mkdtemp()
+    try:
+        top = os.path.join(root, "pkg.package")
+        ext = os.path.join(root, "elsewhere")
+        os.makedirs(top)
+        os.makedirs(os.path.join(ext, "a-dir"))
+        with open(os.path.join(ext, "a-file"), "w") as f:
+            f.write("x")
+        os.symlink(os.path.join(ext, "a-dir"), os.path.join(ext, "link-to-a-dir"))
+        want_dirs, want_files = [], []
+        for name, kind in case["entries"]:
+            p = os.path.join(top, name)
+            if kind == "dir":
+                os.makedirs(p)
+            elif kind == "file":
+                with open(p, "w") as f:
+                    f.write("x")
+            else:
+                os.symlink(os.path.join(ext, {"link-to-dir": "a-dir", "link-to-file": "a-file",
+                                              "dangling-link": "nothing-here",
+                                              "link-to-link-to-dir": "link-to-a-dir"}[kind]), p)
+            if kind in ("dir", "link-to-dir", "link-to-link-to-dir"):
+                want_dirs.append(name)        # a folder of the package, however it got there
+            elif kind in ("file", "link-to-file"):
+                want_files.append(name)
+        want = sorted(want_dirs + (want_files if case["include_files"] else []))
+        m = Manifest.fromDirectory(top, validate=False, include_files=case["include_files"],
+                                   resolve_paths=case["resolve_paths"])
+        got = sorted(m.top_level_folders)
+        if got != want:
+            raise Violation("implied-manifest-differs-from-directory",
+                            "entries %s (include_files=%s): Manifest.fromDirectory().top_level_folders = %s, the "
+                            "directory holds %s" % (case["entries"], case["include_files"], got, want))
+        ctx.rec.label("implied:links" if any(k.startswith("link") for _, k in case["entries"]) else "implied:plain")
+        if any(k.startswith("link-to") for _, k in case["entries"]):
+            ctx.rec.nt(["implied", case], {"entries": case["entries"], "top_level_folders": got}, group="implied")
+    finally:
+        shutil.rmtree(root, ignore_errors=True)
+
+
 def shard(ctx: Ctx):
+    explore(ctx, "implied", implied_case(), check_implied, ctx.n(400, 20000), batch=100)
     explore(ctx, "parse", G.world(max_refs=6), check_parse, ctx.n(50000, 3000000), batch=2500)
     explore(ctx, "validate", G.world(max_refs=5, for_validate=True), check_validate, ctx.n(6000, 300000), batch=500)
     explore(ctx, "package", G.world(max_refs=4, for_validate=True), check_package, ctx.n(2400, 100000), batch=300)
 
 
 def replay(sub, case, ctx: Ctx):
-    {"parse": check_parse, "validate": check_validate, "package": check_package}[sub or "parse"](case, ctx)
+    {"parse": check_parse, "validate": check_validate, "package": check_package,
+     "implied": check_implied}[sub or "parse"](case, ctx)
